@@ -75,6 +75,7 @@ Theorem identifier_keyword_free : forall e0 els rest, wf_ident false e0 els rest
   hd_not (is_c 40) rest = true -> hd_not (is_c 43) rest = true ->
   first_plain_ok false e0 (render els ++ rest) = true.
 Proof. exact ident_kw_free. Qed.
+Print Assumptions identifier_keyword_free.
 (* kw_free is exactly "the URI and UNICODE-RANGE productions cannot get past their keyword" *)
 Theorem keyword_free_fails : forall t, kw_free t = true ->
   Fails (R:=nat) (m re_URI) t /\ Fails (R:=nat) (m re_UNICODE_RANGE) t.
@@ -87,10 +88,13 @@ Print Assumptions keyword_free_fails.
    that fails after the long spelling is retried after the shorter ones), backslash + upper, backslash + lower *)
 Theorem letter_macro_exact_U : forall t p (k : cont nat), m U_re p t k = tryl k p t (lspell LU t).
 Proof. intros t p k. apply (U_exact t). Qed.
+Print Assumptions letter_macro_exact_U.
 Theorem letter_macro_exact_R : forall t p (k : cont nat), m R_re p t k = tryl k p t (lspell LR t).
 Proof. intros t p k. apply (R_exact t). Qed.
+Print Assumptions letter_macro_exact_R.
 Theorem letter_macro_exact_L : forall t p (k : cont nat), m L_re p t k = tryl k p t (lspell LL t).
 Proof. intros t p k. apply (L_exact t). Qed.
+Print Assumptions letter_macro_exact_L.
 Theorem letter_macro_spec : forall p t n,
   (rmatch U_re p t = Some n <-> hd_error (lspell LU t) = Some n) /\
   (rmatch R_re p t = Some n <-> hd_error (lspell LR t) = Some n) /\
@@ -99,6 +103,7 @@ Proof. exact letter_macro_spec_lemma. Qed.
 Print Assumptions letter_macro_spec.
 Theorem letter_macros_regenerated : re_URI = Cat U_re (Cat R_re (Cat L_re uri_rest)) /\ re_UNICODE_RANGE = Cat U_re ur_rest.
 Proof. exact shapes_uri. Qed.
+Print Assumptions letter_macros_regenerated.
 Example letter_macro_examples :
   lspell LU (s "u") = [1%nat] /\ lspell LL ([92%N] ++ s "4C" ++ [13%N; 10%N] ++ s "(") = [5; 4; 3]%nat /\
   lspell LR ([92%N] ++ s "000072 x") = [8; 7]%nat /\ lspell LR ([92%N] ++ s "0000072") = [] /\
@@ -281,8 +286,10 @@ Proof. exact ratio_needs_paren_lemma. Qed.
 Theorem ratio_needs_slash : forall ds tail, ds <> [] -> forallb is_dig ds = true -> hd_not is_dig tail = true ->
   ratio_risk tail = false -> Fails (R:=nat) (m ratio_re) (ds ++ tail).
 Proof. exact ratio_fails. Qed.
+Print Assumptions ratio_needs_slash.
 Theorem ratio_not_after_paren : forall t, rmatch ratio_re (Some 40%N) t = None.
 Proof. exact ratio_after_paren_lemma. Qed.
+Print Assumptions ratio_not_after_paren.
 Print Assumptions ratio_needs_paren.
 Example ratio_example :
   try_prods productions true false (Some 32%N) (s "4 / 3) x") = Some (Step (s "RATIO") (s "4 / 3") true) /\
